@@ -37,7 +37,9 @@ def scenario(sid, argv, envp, L, image_at, extra):
 def mk_strings(rng, lens):
     out = []
     for k, ln in enumerate(lens):
-        out.append("".join(rng.choice("abcXYZ/=_0") for _ in range(ln)))
+        # mostly ASCII; one string in five mixes in 2-, 3- and 4-byte UTF-8 characters (the copy is byte for byte)
+        alpha = "abcXYZ/=_0" if rng.random() < 0.8 else "ab0=\u00e9\u00ef\u65e5\u672c\U0001f600"
+        out.append("".join(rng.choice(alpha) for _ in range(ln)))
     return out
 
 
